@@ -285,12 +285,12 @@ func run(rt *rapid.T, disciplined bool) {
 }
 
 func TestDisciplined(t *testing.T) {
-	ev.Rapid(t, 700, 10000)
+	ev.Rapid(t, 1500, 10000)
 	rapid.Check(t, func(rt *rapid.T) { run(rt, true) })
 }
 
 func TestAnyPosition(t *testing.T) {
-	ev.Rapid(t, 700, 10000)
+	ev.Rapid(t, 1500, 10000)
 	rapid.Check(t, func(rt *rapid.T) { run(rt, false) })
 }
 
